@@ -56,6 +56,115 @@ def _blocks(node: ast.AST):
             yield "case", c.body
 
 
+# --------------------------------------------------------------------------- accumulation loop -> comprehension
+_EMPTY = {"list": ast.ListComp, "set": ast.SetComp, "dict": ast.DictComp}
+
+
+def _empty_kind(v: ast.expr):
+    if isinstance(v, ast.List) and not v.elts:
+        return "list"
+    if isinstance(v, ast.Dict) and not v.keys:
+        return "dict"
+    if isinstance(v, ast.Call) and isinstance(v.func, ast.Name) and not v.args and not v.keywords and v.func.id in ("list", "dict", "set"):
+        return v.func.id
+    return None
+
+
+def _mentions(node: ast.AST, name: str) -> bool:
+    return any(isinstance(n, ast.Name) and n.id == name for n in ast.walk(node))
+
+
+def _accumulation(loop: ast.For, name: str, kind: str):
+    """(element | (key, value), generators) when the loop only accumulates into `name`, else None"""
+    gens = []
+    cur: ast.stmt = loop
+    while True:
+        if isinstance(cur, (ast.For,)) and not cur.orelse and len(cur.body) == 1:
+            if _mentions(cur.iter, name) or _mentions(cur.target, name):
+                return None
+            gens.append(ast.comprehension(target=cur.target, iter=cur.iter, ifs=[], is_async=0))
+            cur = cur.body[0]
+        elif isinstance(cur, ast.If) and not cur.orelse and len(cur.body) == 1 and gens:
+            if _mentions(cur.test, name):
+                return None
+            gens[-1].ifs.append(cur.test)
+            cur = cur.body[0]
+        else:
+            break
+    if not gens:
+        return None
+    # `if c: X[k] = a else: X[k] = b` / `if c: X.append(a) else: X.append(b)`  (a desugared conditional expression)
+    if isinstance(cur, ast.If) and len(cur.body) == 1 and len(cur.orelse) == 1 and not _mentions(cur.test, name):
+        a, b = cur.body[0], cur.orelse[0]
+        if isinstance(a, ast.Assign) and isinstance(b, ast.Assign) and len(a.targets) == 1 and len(b.targets) == 1 and ast.dump(a.targets[0]) == ast.dump(b.targets[0]):
+            cur = ast.copy_location(ast.Assign(targets=a.targets, value=ast.IfExp(test=cur.test, body=a.value, orelse=b.value), type_comment=None), cur)
+        elif isinstance(a, ast.Expr) and isinstance(b, ast.Expr) and isinstance(a.value, ast.Call) and isinstance(b.value, ast.Call) and ast.dump(a.value.func) == ast.dump(b.value.func) \
+                and len(a.value.args) == 1 and len(b.value.args) == 1 and not a.value.keywords and not b.value.keywords:
+            cur = ast.copy_location(ast.Expr(value=ast.Call(func=a.value.func, args=[ast.IfExp(test=cur.test, body=a.value.args[0], orelse=b.value.args[0])], keywords=[])), cur)
+    if kind in ("list", "set") and isinstance(cur, ast.Expr) and isinstance(cur.value, ast.Call) and isinstance(cur.value.func, ast.Attribute) \
+            and isinstance(cur.value.func.value, ast.Name) and cur.value.func.value.id == name and len(cur.value.args) == 1 and not cur.value.keywords \
+            and cur.value.func.attr == ("append" if kind == "list" else "add") and not _mentions(cur.value.args[0], name) and not isinstance(cur.value.args[0], ast.Starred):
+        return cur.value.args[0], gens
+    if kind == "dict" and isinstance(cur, ast.Assign) and len(cur.targets) == 1 and isinstance(cur.targets[0], ast.Subscript) and isinstance(cur.targets[0].value, ast.Name) \
+            and cur.targets[0].value.id == name and not _mentions(cur.targets[0].slice, name) and not _mentions(cur.value, name):
+        return (cur.targets[0].slice, cur.value), gens
+    return None
+
+
+def _loop_targets(gens) -> set:
+    return {n.id for g in gens for n in ast.walk(g.target) if isinstance(n, ast.Name)}
+
+
+def loops_to_comprehensions(fn, stats: Dict[str, int]) -> None:
+    """X = [] ; for t in it: [if c:] X.append(e)   ->   X = [e for t in it if c]     (also set.add, dict[k] = v, nested for).
+    Only when nothing between the initialisation and the loop mentions X and the loop variables are not read afterwards."""
+    def rec(node):
+        for fld, b in list(_blocks(node)):
+            i = 0
+            while i < len(b):
+                st = b[i]
+                if isinstance(st, ast.For) and not st.orelse:
+                    done = False
+                    for j in range(i - 1, -1, -1):
+                        prev = b[j]
+                        if isinstance(prev, ast.Assign) and len(prev.targets) == 1 and isinstance(prev.targets[0], ast.Name):
+                            name = prev.targets[0].id
+                            kind = _empty_kind(prev.value)
+                            if kind and not any(_mentions(x, name) for x in b[j + 1:i]):
+                                acc = _accumulation(st, name, kind)
+                                if acc is not None:
+                                    elt, gens = acc
+                                    later = b[i + 1:]
+                                    tv = _loop_targets(gens)
+                                    used_later = any(isinstance(n, ast.Name) and n.id in tv and isinstance(n.ctx, ast.Load) for x in later for n in ast.walk(x))
+                                    if not used_later:
+                                        if kind == "dict":
+                                            comp = ast.DictComp(key=elt[0], value=elt[1], generators=gens)
+                                        elif kind == "set":
+                                            comp = ast.SetComp(elt=elt, generators=gens)
+                                        else:
+                                            comp = ast.ListComp(elt=elt, generators=gens)
+                                        new = ast.Assign(targets=[prev.targets[0]], value=comp, type_comment=None)
+                                        ast.copy_location(new, st)
+                                        ast.copy_location(comp, st)
+                                        b[i] = new
+                                        del b[j]
+                                        stats["loop2comp"] += 1
+                                        done = True
+                                        i -= 1
+                                break
+                        if any(isinstance(n, ast.Name) for n in ast.walk(prev)) and False:
+                            break
+                    if done:
+                        i += 1
+                        continue
+                i += 1
+        for c in ast.iter_child_nodes(node):
+            if isinstance(c, (ast.stmt, ast.ExceptHandler)) and not isinstance(c, ast.ClassDef):
+                rec(c)
+    rec(fn)
+
+
 def _rewrite_block(body: List[ast.stmt], in_function: bool, stats: Dict[str, int], fn) -> List[ast.stmt]:
     out: List[ast.stmt] = []
     i = 0
@@ -77,6 +186,22 @@ def _rewrite_block(body: List[ast.stmt], in_function: bool, stats: Dict[str, int
             ast.copy_location(new, st)
             stats["annotation"] += 1
             st = new
+        if in_function and isinstance(st, (ast.Assign, ast.Return)) and isinstance(st.value, ast.IfExp) and (isinstance(st, ast.Return) or len(st.targets) == 1):
+            # statement-level conditional expression -> if statement (the interpreter forks on the test like on any other)
+            v = st.value
+            if isinstance(st, ast.Return):
+                a, b = ast.Return(value=v.body), ast.Return(value=v.orelse)
+            else:
+                import copy as _copy
+                a = ast.Assign(targets=[st.targets[0]], value=v.body, type_comment=None)
+                b = ast.Assign(targets=[_copy.deepcopy(st.targets[0])], value=v.orelse, type_comment=None)
+            ast.copy_location(a, st)
+            ast.copy_location(b, st)
+            new = ast.If(test=v.test, body=[a], orelse=[b])
+            ast.copy_location(new, st)
+            stats["ifexp"] += 1
+            body[i] = new
+            continue  # re-examine the new statement (else-after-return, nested conditional expressions)
         if in_function and isinstance(st, ast.If) and st.orelse and st.body and isinstance(st.body[-1], EXITS):
             rest = st.orelse
             st.orelse = []
@@ -124,8 +249,13 @@ def _walk(node: ast.AST, in_function: bool, stats: Dict[str, int], fn) -> None:
 
 
 def normalise_tree(tree: ast.Module) -> Dict[str, int]:
-    stats = {"docstring": 0, "logging": 0, "else": 0, "tempreturn": 0, "annotation": 0}
+    stats = {"docstring": 0, "logging": 0, "else": 0, "tempreturn": 0, "annotation": 0, "ifexp": 0, "loop2comp": 0}
     _walk(tree, False, stats, None)
+    for n in ast.walk(tree):
+        if isinstance(n, (ast.FunctionDef, ast.AsyncFunctionDef)):
+            loops_to_comprehensions(n, stats)
+    if stats["loop2comp"]:
+        _walk(tree, False, stats, None)  # e.g. `x = [..comp..]; return x`
     return stats
 
 
